@@ -61,7 +61,18 @@ def unhex(t):
 
 
 # ---- reference: value semantics per handle + ledger consistency (the property's oracle) -------------
+import json
+FAMK = 4    # boxed elements / children per payload in the slot layout of the model (harness: FAMK)
+
+
+def vboxed(v):
+    return v[0] in ("s", "l", "a", "m")
+
+
 class Ref:
+    """Variant values: ("n",) ("i",x) ("s",bytes) ("l",(values..)) ("a",(ints..)) ("m",(k,v,..));
+    Xml values: ("n",) ("t",bytes) ("e",type bytes,(children values..))"""
+
     def __init__(self):
         self.S = [[] for _ in range(4)]
         self.V = [("n",)] * 4
@@ -118,8 +129,19 @@ class Ref:
             V[d] = ("s", tuple(base) + tuple(unhex(a)))
         elif op == "vpush":
             v = V[d]
-            V[d] = ("l", (v[1] if v[0] == "l" else ()) + (int(a),))
-        elif op == "vsetl": V[d] = ("l", (int(a),))
+            V[d] = ("l", (v[1] if v[0] == "l" else ()) + (("i", int(a)),))
+        elif op == "vsetl": V[d] = ("l", (("i", int(a)),))
+        elif op == "vpushv":
+            s_ = int(a)
+            cur = V[d][1] if V[d][0] == "l" else ()
+            if d == s_ or V[s_][0] == "n" or (vboxed(V[s_]) and len(cur) >= FAMK):
+                return False
+            V[d] = ("l", cur + (V[s_],))
+        elif op == "vgetv":
+            v = V[int(a)]
+            if v[0] != "l" or int(t[3]) >= len(v[1]):
+                return False
+            V[d] = v[1][int(t[3])]
         elif op == "vpusha":
             v = V[d]
             V[d] = ("a", (v[1] if v[0] == "a" else ()) + (int(a),))
@@ -139,7 +161,18 @@ class Ref:
         elif op in ("xcopy", "xassign"): X[d] = X[int(a)]
         elif op == "xclear": X[d] = ("n",)
         elif op == "xsets": X[d] = ("t", tuple(unhex(a)))
-        elif op == "xelem": X[d] = ("e", tuple(unhex(a)))
+        elif op == "xelem": X[d] = ("e", tuple(unhex(a)), X[d][2] if X[d][0] == "e" else ())
+        elif op == "xaddc":
+            s_ = int(a)
+            cur = X[d][2] if X[d][0] == "e" else ()
+            if d == s_ or X[s_][0] == "n" or len(cur) >= FAMK:
+                return False
+            X[d] = ("e", X[d][1] if X[d][0] == "e" else (), cur + (X[s_],))
+        elif op == "xgetc":
+            x = X[int(a)]
+            if x[0] != "e" or int(t[3]) >= len(x[2]):
+                return False
+            X[d] = x[2][int(t[3])]
         elif op == "pnew":
             self.nobj += 1
             self.objs[self.nobj] = [int(a), None, 0, True]
@@ -180,15 +213,9 @@ class Ref:
         return alive
 
     def line(self):
-        out = ["s" + hexs(x) for x in self.S]
-        for v in self.V:
-            out.append("vn" if v[0] == "n" else "vi" + hexs([v[1]]) if v[0] == "i" else "v" + v[0] + hexs(list(v[1])))
-        for x in self.X:
-            out.append("xn" if x[0] == "n" else "x" + x[0] + hexs(list(x[1])))
-        for p in self.P:
-            out.append("pn" if p is None else f"p{p}.{hexs([self.objs[p][0]])}")
-        g = ",".join(f"{i}:{hexs([o[0]])}:{o[1] if o[1] is not None else 'n'}:{o[2]}" for i, o in sorted(self.objs.items()) if o[3])
-        return "V " + " ".join(out) + " G " + (g or "-")
+        ps = [None if p is None else [p, self.objs[p][0]] for p in self.P]
+        g = {str(i): [o[0], o[1], o[2]] for i, o in sorted(self.objs.items()) if o[3]}
+        return "V " + json.dumps({"S": self.S, "V": self.V, "X": self.X, "P": ps, "G": g}, separators=(",", ":"))
 
 
 def reference(hist):
@@ -220,7 +247,7 @@ def reference(hist):
 
 
 def parse_obs(impl):
-    """observation -> (handle tokens, {pid: (state, ref, tag, bytes)}, live, bad) or None"""
+    """observation -> (handle tokens, {pid: (state, ref, tag, bytes, embedded handle tokens or None)}, live, bad) or None"""
     if " # " in impl:
         impl = impl.split(" # ", 1)[1]
     parts = impl.split(" | ")
@@ -237,7 +264,8 @@ def parse_obs(impl):
                 table[int(f[0])] = (f[1], 0, -1, [], None)
             elif len(f) == 5:
                 c = f[4].split(">")
-                table[int(f[0])] = (f[1], int(f[2]), int(f[3]), unhex(c[0]), c[1] if len(c) > 1 else None)
+                embs = None if len(c) < 2 else [] if c[1] == "-" else c[1].split(",")
+                table[int(f[0])] = (f[1], int(f[2]), int(f[3]), unhex(c[0]), embs)
             else:
                 return None
     tail = dict(x.split("=") for x in parts[2].split(" "))
@@ -255,15 +283,14 @@ def ref_eq(impl, ref):
     if p is None:
         return False
     hs, table, live, bad = p
-    body, graph = ref[2:].split(" G ")
-    want = body.split(" ")
+    want = json.loads(ref[2:])
     if bad != 0:
         return False
     count = {}
     objpid = {}
 
-    def designate(tok):
-        """handle token -> pid (counted) / None; raises on dangling or inconsistent handles"""
+    def pid_of(tok, counted):
+        """handle token -> pid / None; raises on dangling or inconsistent handles"""
         if tok == "n":
             return None
         if not (tok.startswith("b") and tok[1:].isdigit()):
@@ -271,72 +298,106 @@ def ref_eq(impl, ref):
         pid = int(tok[1:])
         if pid not in table or table[pid][0] != "L":
             raise ValueError(tok)                   # designates a released payload
-        count[pid] = count.get(pid, 0) + 1
+        if counted:
+            count[pid] = count.get(pid, 0) + 1
         return pid
 
+    def chk_v(tok, v, top):
+        """a Variant handle (variable or list element) holds the value v"""
+        if v[0] == "n":
+            return tok == "n"
+        if v[0] == "i":
+            return tok == ("i11." + hexs([v[1]])) if top else tok == "n"
+        pid = pid_of(tok, False)
+        if pid is None:
+            return False
+        _, _, tag, val, embs = table[pid]
+        if v[0] in ("s", "a", "m"):
+            return tag == {"s": 12, "a": 14, "m": 15}[v[0]] and val == list(v[1])
+        if tag != 13 or embs is None or len(embs) != len(v[1]) or len(val) != len(v[1]):
+            return False
+        for e, byte, tk in zip(v[1], val, embs):
+            if byte != (e[1] if e[0] == "i" else 0):
+                return False
+            if not chk_v(tk, e, False):
+                return False
+        return True
+
+    def chk_x(tok, x):
+        if x[0] == "n":
+            return tok == "n"
+        pid = pid_of(tok, False)
+        if pid is None:
+            return False
+        _, _, tag, val, embs = table[pid]
+        if x[0] == "t":
+            return tag == 22 and val == list(x[1])
+        if tag != 23 or val != list(x[1]) or embs is None or len(embs) != len(x[2]):
+            return False
+        return all(chk_x(tk, c) for tk, c in zip(embs, x[2]))
+
     try:
-        for k, (h, w) in enumerate(zip(hs, want)):
-            if h.startswith("i") and "." in h:
-                tag, val = int(h[1:].split(".")[0]), unhex(h.split(".")[1])
-                pid = None
-            else:
-                pid = designate(h)
-                tag, val = (table[pid][2], table[pid][3]) if pid is not None else (None, [])
-            kind = k // 4
-            if kind == 0:
-                if tag not in (None, 0) or hexs(val) != w[1:]:
-                    return False
-            elif kind == 1:
-                exp = {"n": None, "i": 11, "s": 12, "l": 13, "a": 14, "m": 15}[w[1]]
-                if tag != exp or (exp is not None and hexs(val) != w[2:]):
-                    return False
-            elif kind == 2:
-                exp = {"n": None, "t": 22, "e": 23}[w[1]]
-                if tag != exp or (exp is not None and hexs(val) != w[2:]):
-                    return False
-            else:
-                if w == "pn":
-                    if h != "n":
-                        return False
-                else:
-                    oid = w[1:].split(".")[0]
-                    if pid is None or objpid.setdefault(oid, pid) != pid:
-                        return False                # copies of one Ptr designate different objects
-        # handles embedded in live payloads count as handles
+        # every handle designates a live payload: the 16 variables and, once per live payload, its embedded handles
+        tops = []
+        for h in hs:
+            tops.append(None if (h.startswith("i") and "." in h) else pid_of(h, True))
         emb = {}
         for pid, e in table.items():
             if e[0] == "L" and e[4] is not None:
-                emb[pid] = designate(e[4])
+                emb[pid] = [pid_of(tk, True) for tk in e[4]]
+        for k in range(4):
+            h, w = hs[k], want["S"][k]
+            if h.startswith("i0."):
+                val = unhex(h[3:])
+            elif tops[k] is None:
+                if h != "n":
+                    return False
+                val = []
+            else:
+                if table[tops[k]][2] != 0:
+                    return False
+                val = table[tops[k]][3]
+            if val != w:
+                return False
+        for k in range(4):
+            if not chk_v(hs[4 + k], want["V"][k], True):
+                return False
+            if not chk_x(hs[8 + k], want["X"][k]):
+                return False
+        for k in range(4):
+            w, h, pid = want["P"][k], hs[12 + k], tops[12 + k]
+            if w is None:
+                if h != "n":
+                    return False
+            elif pid is None or objpid.setdefault(str(w[0]), pid) != pid:
+                return False                        # copies of one Ptr designate different objects
         # the object graph: same shape, values and counters as the reference graph
-        objs = {}
-        if graph != "-":
-            for item in graph.split(","):
-                oid, v, nxt, rc = item.split(":")
-                objs[oid] = (v, nxt, int(rc))
+        objs = want["G"]
         todo = list(objpid)
         while todo:
             oid = todo.pop()
             pid = objpid[oid]
             v, nxt, rc = objs[oid]
-            if table[pid][2] != 30 or hexs(table[pid][3]) != v or table[pid][1] != rc:
+            if table[pid][2] != 30 or table[pid][3] != [v] or table[pid][1] != rc or len(emb.get(pid, [])) != 1:
                 return False
-            if nxt == "n":
-                if emb.get(pid) is not None:
+            if nxt is None:
+                if emb[pid][0] is not None:
                     return False
             else:
-                if emb.get(pid) is None:
+                if emb[pid][0] is None:
                     return False
-                if nxt in objpid:
-                    if objpid[nxt] != emb[pid]:
+                if str(nxt) in objpid:
+                    if objpid[str(nxt)] != emb[pid][0]:
                         return False
                 else:
-                    objpid[nxt] = emb[pid]
-                    todo.append(nxt)
+                    objpid[str(nxt)] = emb[pid][0]
+                    todo.append(str(nxt))
         if len(set(objpid.values())) != len(objpid):
             return False                            # distinct objects share a payload
-    except ValueError:
+    except (ValueError, KeyError, IndexError, TypeError):
         return False
-    # ledger: counter = number of handles, released exactly once after the last handle, no leak
+    # ledger: counter = number of handles (variables + handles embedded in live payloads), released exactly once
+    # after the last handle, no leak
     nlive = 0
     for pid, e in table.items():
         state, ref_ = e[0], e[1]
@@ -360,17 +421,19 @@ KINDS = "svxp"
 OPS = {
     "s": ["snew", "slit", "scopy", "sassign", "sclear", "sappend", "sreserve", "sdel", "sset",
           "sprepend", "sresize", "sreplace", "slower", "schar", "sprintf"],
-    "v": ["vcopy", "vassign", "vclear", "vseti", "vsets", "vapp", "vpush", "vswap", "vsetl", "vpusha", "vseta", "vputm", "vsetm"],
-    "x": ["xcopy", "xassign", "xclear", "xsets", "xelem"],
+    "v": ["vcopy", "vassign", "vclear", "vseti", "vsets", "vapp", "vpush", "vswap", "vsetl", "vpusha", "vseta", "vputm", "vsetm",
+          "vpushv", "vgetv"],
+    "x": ["xcopy", "xassign", "xclear", "xsets", "xelem", "xaddc", "xgetc"],
     "p": ["pnew", "pcopy", "passign", "pclear", "pswap", "praw", "pctor", "plink", "pnext", "pnextof"],
 }
 ST_ONLY = {"sprintf", "sresize", "plink"}   # not in thread programs (see docs/rc.md)
 W = {
-    "s": [3, 1, 4, 4, 2, 5, 2, 2, 2, 2, 2, 2, 2, 2, 1], "v": [4, 4, 2, 2, 3, 4, 3, 2, 2, 3, 1, 3, 1], "x": [4, 4, 2, 3, 4],
+    "s": [3, 1, 4, 4, 2, 5, 2, 2, 2, 2, 2, 2, 2, 2, 1], "v": [4, 4, 2, 2, 3, 4, 3, 2, 2, 3, 1, 3, 1, 6, 4], "x": [4, 4, 2, 3, 4, 5, 3],
     "p": [3, 4, 4, 2, 3, 2, 2, 4, 3, 2],
 }
 TWO = {"scopy", "sassign", "vcopy", "vassign", "vswap", "xcopy", "xassign", "pcopy", "passign", "pswap", "praw", "pctor",
-       "plink", "pnextof"}
+       "plink", "pnextof", "vpushv", "xaddc"}
+GET = {"vgetv", "xgetc"}
 ONE = {"sclear", "sdel", "vclear", "xclear", "pclear", "slower", "schar", "pnext"}
 NUM = {"sreserve", "vseti", "vpush", "vsetl", "pnew", "sresize", "sprintf", "vpusha", "vseta"}
 NUM2 = {"sreplace", "vputm", "vsetm"}
@@ -386,6 +449,8 @@ def cur_len(r, kind, d):
     v = r.V[d] if kind == "v" else r.X[d]
     if kind == "v" and v[0] == "i":
         return 3
+    if kind == "v" and v[0] == "l":
+        return len(v[1])
     return len(v[1]) if len(v) > 1 and isinstance(v[1], tuple) else 0
 
 
@@ -402,6 +467,8 @@ def gen_op(rng, r, kind, handles, mt=False, setup=False):
             line = f"{op} {d} {rng.choice(handles)}"
         elif op in ONE:
             line = f"{op} {d}"
+        elif op in GET:
+            line = f"{op} {d} {rng.choice(handles)} {rng.choice([0, 0, 1, 2, 3])}"
         elif op == "sresize":
             line = f"{op} {d} {rng.randrange(len(r.S[d]) + 1)}"
         elif op == "sreserve":
@@ -444,9 +511,10 @@ SMALL = {
           "sprepend 0 41", "sresize 0 1", "sreplace 0 97 88", "slower 0", "schar 0", "sprintf 1 7"],
     "v": ["vsets 0 61", "vseti 0 7", "vcopy 1 0", "vassign 1 0", "vassign 0 1", "vassign 0 0", "vclear 0", "vclear 1", "vapp 0 62",
           "vapp 1 63", "vpush 0 1", "vpush 1 2", "vswap 0 1", "vswap 0 0", "vsets 1 -", "vsetl 0 3",
-          "vpusha 0 4", "vpusha 1 5", "vseta 0 6", "vputm 0 97 1", "vputm 1 97 2", "vsetm 0 98 3"],
+          "vpusha 0 4", "vpusha 1 5", "vseta 0 6", "vputm 0 97 1", "vputm 1 97 2", "vsetm 0 98 3",
+          "vpushv 0 1", "vpushv 1 0", "vgetv 1 0 0", "vgetv 0 0 0", "vgetv 0 0 1"],
     "x": ["xsets 0 61", "xelem 0 62", "xcopy 1 0", "xassign 1 0", "xassign 0 1", "xassign 0 0", "xclear 0", "xclear 1", "xsets 1 63",
-          "xelem 1 64", "xelem 1 -"],
+          "xelem 1 64", "xelem 1 -", "xaddc 0 1", "xaddc 1 0", "xgetc 1 0 0", "xgetc 0 0 0"],
     "p": ["pnew 0 1", "pnew 1 2", "pcopy 1 0", "pcopy 2 0", "passign 1 0", "passign 0 1", "passign 0 0", "pclear 0", "pclear 1",
           "pswap 0 1", "pswap 0 0", "pnew 2 3", "passign 0 2", "pctor 1 2", "praw 0 2", "plink 0 1", "plink 1 0", "plink 0 0",
           "plink 0 2", "pnext 0", "pnext 1", "pnextof 1 0", "pclear 2"],
